@@ -61,6 +61,7 @@ type Run struct {
 	samples  []any
 	deadline time.Time
 	Quiet    bool // do not print one line per scenario
+	Part     string // non-empty: this process is a sub-part of check ID (own evidence file, merged by the main binary)
 	allSigs  map[string]bool
 }
 
@@ -75,6 +76,53 @@ func (r *Run) SeenSignaturePrefix(prefix string) bool {
 		}
 	}
 	return false
+}
+
+// StartPart is Start for an auxiliary binary of check id: same findings file,
+// same replay directory and VIOLATION lines, but the evidence goes to
+// evidence/parts/<id>.<part>.json for the main binary to merge (MergePart).
+func StartPart(id, part, level string) *Run {
+	r := Start(id, level)
+	r.Part = part
+	return r
+}
+
+// PartResult is what MergePart returns about an auxiliary binary's run.
+type PartResult struct {
+	Coverage   map[string]any `json:"coverage"`
+	Assume     []string       `json:"assumptions"`
+	Violations int            `json:"violations"`
+	WallS      float64        `json:"wall_s"`
+}
+
+// ReadPart loads the evidence an auxiliary binary wrote.
+func ReadPart(id, part string) (*PartResult, error) {
+	data, err := os.ReadFile(filepath.Join(Dir(), "evidence", "parts", id+"."+part+".json"))
+	if err != nil {
+		return nil, err
+	}
+	var p PartResult
+	if err := json.Unmarshal(data, &p); err != nil {
+		return nil, err
+	}
+	return &p, nil
+}
+
+// NoteExternalViolations makes Finish exit 1 for violations an auxiliary
+// binary already reported (it printed the VIOLATION lines itself).
+func (r *Run) NoteExternalViolations(n int, what string) {
+	r.mu.Lock()
+	defer r.mu.Unlock()
+	for i := 0; i < n; i++ {
+		r.viol = append(r.viol, what)
+	}
+}
+
+// NoteKnownHit records a listed finding re-observed by an auxiliary binary.
+func (r *Run) NoteKnownHit(sig string) {
+	r.mu.Lock()
+	defer r.mu.Unlock()
+	r.knownHit[sig] = "re-observed by an auxiliary binary"
 }
 
 // Start parses flags and loads known findings.
@@ -259,7 +307,7 @@ func (r *Run) Finish() {
 	cov["known_findings_reobserved"] = kh
 	// known findings listed but NOT re-observed are worth a line (not an error)
 	for _, k := range r.known {
-		if _, ok := r.knownHit[k.Signature]; !ok {
+		if _, ok := r.knownHit[k.Signature]; !ok && r.Part == "" {
 			fmt.Printf("note: listed finding not re-observed in this tier: %s\n", k.Signature)
 		}
 	}
@@ -280,8 +328,12 @@ func (r *Run) Finish() {
 		ev["assumptions"] = []string{}
 	}
 	data, _ := json.MarshalIndent(ev, "", " ")
-	os.MkdirAll(filepath.Join(Dir(), "evidence"), 0o755)
-	if err := os.WriteFile(filepath.Join(Dir(), "evidence", r.ID+".json"), data, 0o644); err != nil {
+	evFile := filepath.Join(Dir(), "evidence", r.ID+".json")
+	if r.Part != "" {
+		evFile = filepath.Join(Dir(), "evidence", "parts", r.ID+"."+r.Part+".json")
+	}
+	os.MkdirAll(filepath.Dir(evFile), 0o755)
+	if err := os.WriteFile(evFile, data, 0o644); err != nil {
 		fmt.Fprintln(os.Stderr, "evidence:", err)
 		os.Exit(2)
 	}
@@ -293,6 +345,10 @@ func (r *Run) Finish() {
 	}
 	if len(r.viol) > 0 {
 		os.Exit(1)
+	}
+	if r.Part != "" {
+		fmt.Printf("part %s of %s done, no new violation, %.1fs\n", r.Part, r.ID, time.Since(r.start).Seconds())
+		os.Exit(0)
 	}
 	fmt.Printf("OK property=%s tier=%s wall=%.1fs\n", r.ID, r.Tier, time.Since(r.start).Seconds())
 	os.Exit(0)
